@@ -549,6 +549,11 @@ def make_strategy_classes():
                         if len(act[1]) in ex_at:
                             t.execute()
                     out = "txn"
+                elif k == "TXR":  # ["TXR", [acts]]: the strategy's own code raises inside the `with` block after the requests
+                    with market.transaction(client=self.client() if self.client_idx else None) as t:
+                        for n, sub in enumerate(act[1]):
+                            self.do(sub, market, mi, tick, txn=t)
+                        raise UserCodeError("strategy code raised inside the transaction block")
                 elif k == "PA":  # ["PA", i, client index]: offer an order that was refused earlier again, through a (possibly different) client
                     order = self.order_at(act[1])
                     if order is None or order.status is None or order.status.name != "VIOLATION" or order.id in market.blotter:
@@ -568,13 +573,17 @@ def make_strategy_classes():
                     raise core.HarnessError("unknown action %r" % (act,))
             except core.HarnessError:
                 raise
+            except UserCodeError:
+                # contained by flumine's strategy error handling (raise_errors False), like any bug in user code
+                self.log.append((mi, tick, act, "usererror"))
+                raise
             except FlumineException as e:
                 out = "raise:" + type(e).__name__
             except Exception as e:  # unexpected: recorded, judged by the property
                 out = "raise!:" + type(e).__name__ + ":" + str(e)[:80]
             self.log.append((mi, tick, act, out))
             post = w.hooks_get("post_action")
-            if post and k != "TX":
+            if post and k not in ("TX", "TXR"):
                 w.safe(post, w, self, market, act, order, out)
             return out
 
@@ -839,6 +848,10 @@ class CanonUnavailable(Exception):
 
 def _r(x):
     return round(x, 4) if isinstance(x, float) else x
+
+
+class UserCodeError(RuntimeError):
+    """raised by the scripted strategy on purpose (a bug in user code)"""
 
 
 def canon_order(o, index_of, now):
